@@ -27,6 +27,8 @@ _WORLDS = {}
 
 
 STREAMING = [False]     # set per task: every request brings its own StreamingHandler
+TEMP_SETS = {"distinct": [0.9, 0.1, 0.7], "equal": [0.2, 0.2, 0.2], "two-equal": [0.2, 0.9, 0.2], "kwarg": [0.3, 0.6, 0.8]}
+PARAM = ["temperature"]   # "kwarg": the requests set `top_p`, which the LLM object only knows through its model_kwargs
 
 
 def get_world(dialog):
@@ -42,7 +44,7 @@ def get_world(dialog):
 
 async def _serve(w, k, chunks_out):
     """one request; with STREAMING the caller's handler is consumed by a task of its own, like a streaming client"""
-    kw = dict(messages=[{"role": "user", "content": f"UQ{k}Q hello"}], options={"llm_params": {"temperature": TEMPS[k]}})
+    kw = dict(messages=[{"role": "user", "content": f"UQ{k}Q hello"}], options={"llm_params": {PARAM[0]: TEMPS[k]}})
     if not STREAMING[0]:
         return await w.rails.generate_async(**kw)
     import asyncio
@@ -163,10 +165,13 @@ def _text(res):
 def explore(task):
     dialog, n_tasks, granularity, max_dev, budget_s = task[:5]
     STREAMING[0] = bool(task[5]) if len(task) > 5 else False
+    TEMPS[:] = TEMP_SETS[task[6] if len(task) > 6 else "distinct"]
+    PARAM[0] = "top_p" if (len(task) > 6 and task[6] == "kwarg") else "temperature"
     res = {"executions": 0, "states": 0, "transitions": 0, "validated": 0, "overlapping_executions": 0,
            "distinct_outcomes": set(), "viol": [], "complete": True, "bound_pruned": 0}
     ref = isolated_reference(dialog, n_tasks)
-    info0 = {"engine": "E2-aio", "prop": "C15", "dialog": dialog, "n_tasks": n_tasks, "granularity": granularity, "streaming": STREAMING[0]}
+    info0 = {"engine": "E2-aio", "prop": "C15", "dialog": dialog, "n_tasks": n_tasks, "granularity": granularity, "streaming": STREAMING[0],
+             "temps": task[6] if len(task) > 6 else "distinct"}
     if STREAMING[0] and any(not ref[k][3] for k in ref):
         res["viol"].append(("harness:isolated-streaming-run-received-no-chunks", repr({k: ref[k] for k in ref})[:600], info0))
         res["distinct_outcomes"] = 0
@@ -219,9 +224,10 @@ def explore(task):
             k = int(label[3:])
             t = str(c["task"])
             want = TEMPS[k] if ("general" in t or "generate_bot_message" in t) else None
-            if want is not None and c["temperature"] != want:
+            had = c["temperature"] if PARAM[0] == "temperature" else c["model_kwargs"].get("top_p")
+            if want is not None and had != want:
                 bad("llm_params:call-ran-with-another-requests-parameters",
-                    f"LLM call {c['i']} ({t}) of {label} ran with temperature {c['temperature']}, requested {want}")
+                    f"LLM call {c['i']} ({t}) of {label} ran with {PARAM[0]} {had}, requested {want}")
         # (b) replies and prompts vs isolated
         outcome = []
         for k in range(n_tasks):
@@ -236,11 +242,34 @@ def explore(task):
                     bad("streaming:chunks-differ-from-isolated-run",
                         f"req{k}: its streaming handler received {world['chunks'].get(k)!r}, alone {ref[k][3]!r}")
         # (c) parameters at rest
-        if w.llm.temperature != CONFIGURED_T:
-            bad("llm_params:not-restored-after-overlapping-requests",
-                f"all requests finished but llm.temperature is {w.llm.temperature}, configured {CONFIGURED_T}")
-        if w.llm.model_kwargs:
-            bad("llm_params:model-kwargs-left-behind", f"model_kwargs = {w.llm.model_kwargs}")
+        leftover = {k: v for k, v in (w.llm.model_kwargs or {}).items() if v is not None}
+        if w.llm.temperature != CONFIGURED_T or leftover:
+            # one LLM call per request (no dialog rails): were the parameter blocks of the requests properly nested,
+            # i.e. did the requests finish in the reverse order of their LLM calls' starts?  Then plain save/restore
+            # around the call is enough and the configured value must be back.
+            nested = False
+            if not dialog and granularity == "quiescence":
+                # bracket sequence: a request opens when it arrives and closes when its LLM call is answered (with
+                # quiescence granularity everything a choice enables has run before the next choice is taken)
+                open_, nested = [], True
+                for t in trace:
+                    if t[0] == "start":
+                        open_.append(t[1])
+                    elif t[0] == "ext":
+                        lab = str(t[1]).split(":")[-1]
+                        if not open_ or open_[-1] != lab:
+                            nested = False
+                            break
+                        open_.pop()
+            if nested:
+                bad("llm_params:not-restored-after-properly-nested-requests",
+                    f"all requests finished (their LLM calls properly nested) but llm.temperature is {w.llm.temperature} (configured {CONFIGURED_T}), model_kwargs {w.llm.model_kwargs}")
+            else:
+                bad("llm_params:not-restored-after-overlapping-requests",
+                    f"all requests finished but llm.temperature is {w.llm.temperature} (configured {CONFIGURED_T}), model_kwargs {w.llm.model_kwargs}")
+        if w.llm.model_kwargs and not leftover:
+            bad("llm_params:model-kwargs-key-left-behind-as-none",
+                f"no request in flight, model_kwargs = {w.llm.model_kwargs} (configured: empty); later calls carry the extra key")
         res["distinct_outcomes"].add((tuple(outcome), w.llm.temperature))
 
     def observe(env, world):
@@ -264,12 +293,16 @@ def run_part(rep, tier):
 
     if tier == "quick":
         ts = [(False, 2, "quiescence", None, 60), (True, 2, "quiescence", None, 60), (False, 2, "iteration", 3, 60),
-              (False, 2, "quiescence", None, 60, True), (True, 2, "quiescence", None, 60, True)]
+              (False, 2, "quiescence", None, 60, True), (True, 2, "quiescence", None, 60, True),
+              (False, 2, "quiescence", None, 60, False, "equal"), (False, 3, "quiescence", 3, 60, False, "two-equal"),
+              (False, 2, "quiescence", None, 60, False, "kwarg")]
     else:
         ts = [(False, 2, "quiescence", None, 300), (True, 2, "quiescence", None, 300), (False, 3, "quiescence", None, 600),
               (True, 3, "quiescence", 4, 600), (False, 2, "iteration", None, 600), (True, 2, "iteration", 4, 600),
               (False, 2, "quiescence", None, 300, True), (True, 2, "quiescence", None, 300, True), (False, 3, "quiescence", None, 600, True),
-              (False, 2, "iteration", 3, 600, True)]
+              (False, 2, "iteration", 3, 600, True),
+              (False, 2, "quiescence", None, 300, False, "equal"), (False, 3, "quiescence", None, 600, False, "two-equal"), (False, 3, "quiescence", None, 600, False, "equal"),
+              (False, 2, "quiescence", None, 300, False, "kwarg"), (True, 2, "quiescence", None, 300, False, "kwarg")]
     agg = {"executions": 0, "states": 0, "transitions": 0, "validated": 0, "overlapping_executions": 0, "distinct_outcomes": 0, "streamed_chunks_checked": 0}
     complete = True
     for r in par.pmap(explore, ts):
@@ -281,12 +314,14 @@ def run_part(rep, tier):
     for k, v in agg.items():
         rep.set("conc_" + k, v)
     rep.set("conc_complete_within_bounds", complete)
-    rep.set("conc_configs", [f"dialog={t[0]} tasks={t[1]} granularity={t[2]} max_deviations={t[3]} streaming={len(t) > 5 and t[5]}" for t in ts])
+    rep.set("conc_configs", [f"dialog={t[0]} tasks={t[1]} granularity={t[2]} max_deviations={t[3]} streaming={len(t) > 5 and t[5]} temperatures={t[6] if len(t) > 6 else 'distinct'}" for t in ts])
     return agg
 
 
 def replay(rp):
     STREAMING[0] = bool(rp.get("streaming"))
+    TEMPS[:] = TEMP_SETS[rp.get("temps", "distinct")]
+    PARAM[0] = "top_p" if rp.get("temps") == "kwarg" else "temperature"
     make = make_factory(rp["dialog"], rp["n_tasks"])
     env = aio.Env(granularity=rp["granularity"])
     world = make(env)
